@@ -12,7 +12,7 @@ CFG = {
     "rule": ("each seed draws a schema, 1-5 contested timestamps (some in older segments), 1-3 series, and 3-16 operations: write a batch of 1-40 rows whose keys collide on purpose with versions 1-6 "
              "(ties included; one row in ten with version 0 = defaulted from the message id), advance the clock 1s-3min (flush/merge), or query everything and compare. "
              "Unique payload (write id) per row makes the winner attributable. Non-trivial = at least one contested key; distinct = canonical event-log digests"),
-    "expected_probes": ["reach.contested_keys", "reach.tied_max_version", "reach.version_defaulted_from_message_id"],
+    "expected_probes": ["reach.narrow_range_query", "reach.contested_keys", "reach.tied_max_version", "reach.version_defaulted_from_message_id"],
     "real_vs_stub": {
         "real": ["banyand/liaison/grpc measure Write+Query services", "banyand/measure (write path, dedup in mem parts, merger, query heap)", "banyand/internal/storage", "banyand/query + pkg/query"],
         "stub": ["metadata registry (simmeta)", "gRPC transport (in-memory server streams)", "clock (testing/synctest)"],
